@@ -538,4 +538,73 @@ def feed (cfg : DecodeCfg) : Decoder → Bytes → FeedResult
       let r := feed cfg d' rest
       { r with packets := ps ++ r.packets }
 
+/-! ### the slice-level code, literally (`process_read_*`, `decode_bytes`)
+
+`decodeBytes` follows decode.rs line by line on a whole slice: the body is taken from the slice in
+one piece (`bytes[..bytes_needed]`), the scratch buffer is only used across calls.  It is the
+executable model used by the driver; `Proofs/DecodeSlice.lean` shows that it computes the same
+packets and verdict as the byte-at-a-time machine `feed` above. -/
+
+inductive Directive where
+  | outOfData | continue | terminal (e : DecErr)
+
+/-- `process_read_packet_type` -/
+def processType (d : Decoder) (bs : Bytes) : Directive × Decoder × Bytes :=
+  match bs with
+  | [] => (.outOfData, d, [])
+  | b :: r => (.continue, { d with firstByte := b, state := .readLength }, r)
+
+/-- `process_read_total_remaining_length` -/
+def processLength (cfg : DecodeCfg) (d : Decoder) (bs : Bytes) : Directive × Decoder × Bytes :=
+  match bs with
+  | [] => (.outOfData, d, [])
+  | b :: r =>
+    let scratch := d.scratch ++ [b]
+    match decodeVli scratch with
+    | .value rl _ =>
+      if rl + 1 + scratch.length ≤ cfg.limit then
+        (.continue, { d with remaining := rl, state := .readBody, scratch := [] }, r)
+      else (.terminal .decodingFailure, { d with scratch := scratch }, r)
+    | _ =>
+      if scratch.length ≥ 4 then (.terminal .decodingFailure, { d with scratch := scratch }, r)
+      else if !r.isEmpty then (.continue, { d with scratch := scratch }, r)
+      else (.outOfData, { d with scratch := scratch }, r)
+
+/-- `process_read_packet_body`; returns the decoded packet, if any -/
+def processBody (cfg : DecodeCfg) (d : Decoder) (bs : Bytes) : Directive × Decoder × Bytes × Option Packet :=
+  let needed := d.remaining - d.scratch.length
+  if needed > bs.length then (.outOfData, { d with scratch := d.scratch ++ bs }, [], none)
+  else
+    let slice := if d.scratch.isEmpty then bs.take needed else d.scratch ++ bs.take needed
+    match decodePacket cfg.version d.firstByte slice with
+    | .ok p => (.continue, { state := .readType, scratch := [], firstByte := 0, remaining := 0 }, bs.drop needed, some p)
+    | .error e => (.terminal e, { d with scratch := slice }, [], none)
+
+/-- `decode_bytes`: the `while let Continue` loop; `fuel` bounds the iterations
+    (`2 * bs.length + 3` suffice: every two iterations consume at least one byte). -/
+def decodeLoop (cfg : DecodeCfg) : Nat → Decoder → Bytes → List Packet → FeedResult
+  | 0, d, _, acc => { dec := d, packets := acc.reverse, err := some .decodingFailure }
+  | fuel + 1, d, bs, acc =>
+    match d.state with
+    | .terminal => { dec := d, packets := acc.reverse, err := some .decodingFailure }
+    | .readType =>
+      (match processType d bs with
+       | (.continue, d', r) => decodeLoop cfg fuel d' r acc
+       | (.outOfData, d', _) => { dec := d', packets := acc.reverse, err := none }
+       | (.terminal e, d', _) => { dec := { d' with state := .terminal }, packets := acc.reverse, err := some e })
+    | .readLength =>
+      (match processLength cfg d bs with
+       | (.continue, d', r) => decodeLoop cfg fuel d' r acc
+       | (.outOfData, d', _) => { dec := d', packets := acc.reverse, err := none }
+       | (.terminal e, d', _) => { dec := { d' with state := .terminal }, packets := acc.reverse, err := some e })
+    | .readBody =>
+      (match processBody cfg d bs with
+       | (.continue, d', r, some p) => decodeLoop cfg fuel d' r (p :: acc)
+       | (.continue, d', r, none) => decodeLoop cfg fuel d' r acc
+       | (.outOfData, d', _, _) => { dec := d', packets := acc.reverse, err := none }
+       | (.terminal e, d', _, _) => { dec := { d' with state := .terminal }, packets := acc.reverse, err := some e })
+
+def decodeBytes (cfg : DecodeCfg) (d : Decoder) (bs : Bytes) : FeedResult :=
+  decodeLoop cfg (2 * bs.length + 3) d bs []
+
 end GV
